@@ -687,6 +687,7 @@ type tObs struct {
 	ReleasedEarly bool
 	HPanicked     bool
 	Recovered     bool
+	Claimed       bool // the timeout handler was called (custom handler: observed directly; default one: its body is there)
 	Follow        int
 	Discard       string
 }
@@ -774,9 +775,11 @@ func runT(c tCase) tObs {
 	select {
 	case <-served:
 	case <-time.After(20 * time.Second):
-		o.Discard = "ServeHTTP did not return within 20s (deadlock)"
+		// the request is never answered (in the model every generated program returns): an observation, not a timing
+		// artefact — reported like a process that is gone: no response, escaped = 9
 		s.parent.fire(context.Canceled)
 		s.goH()
+		o.Escaped, o.ReleasedEarly, o.HPanicked = 9, true, true
 		return o
 	}
 	o.ReleasedEarly = !s.hFinished.Load()
@@ -799,8 +802,16 @@ func runT(c tCase) tObs {
 	}
 	o.HPanicked = s.hPanicked.Load()
 	o.Recovered = s.recovered.Load()
+	o.Claimed = s.tIn.Load()
 	o.Status = rec.Code
 	o.Body = cx.ParseBody(rec.Body.Bytes())
+	if !c.Custom {
+		for _, ch := range o.Body {
+			if ch == cx.TimeoutChunk {
+				o.Claimed = true
+			}
+		}
+	}
 	// well-formed also means: the headers describe the body that was sent
 	if cl := rec.Header().Get("Content-Length"); cl != "" && cl != strconv.Itoa(rec.Body.Len()) || rec.Header().Get("Content-Encoding") != "" {
 		o.Body = append(o.Body, cx.OtherChunk)
@@ -878,7 +889,7 @@ func emitT(id string, c tCase, st *hx.Stats) string {
 	}
 	in := l.String()
 	l.Sep()
-	announce(l.String() + " 0 0 1 9 1 1 0 0" + hx.Comment(c))
+	announce(l.String() + " 0 0 1 9 1 1 0 0 0" + hx.Comment(c))
 	o := runT(c)
 	if o.Discard != "" {
 		if st != nil {
@@ -893,7 +904,7 @@ func emitT(id string, c tCase, st *hx.Stats) string {
 	} else {
 		l.Nat(1).Nat(o.Escaped)
 	}
-	l.Bool(o.ReleasedEarly).Bool(o.HPanicked).Bool(o.Recovered).Nat(o.Follow)
+	l.Bool(o.ReleasedEarly).Bool(o.HPanicked).Bool(o.Recovered).Bool(o.Claimed).Nat(o.Follow)
 	if st != nil {
 		st.Case(in[len(id):], true)
 		st.Count("T_status_" + strconv.Itoa(o.Status))
